@@ -394,6 +394,11 @@ def fam_c19(R, n_random):
     for p in ['a*', '(a|)', '', 'a?', '(a*)*', 'a{0,3}', '(?:)', 'b*|a']:
         add(enum([], ['#[regex(%s)] A,' % rust_str(p)]), 'reject', 'empty', 'nullable')
     add(enum(['#[logos(skip "a*")]'], ['#[token("b")] B,']), 'reject', 'empty')
+    # ... also when an explicit priority is given
+    for p in ['[0-9a-f]*', 'a?', '(x|)']:
+        add(enum([], ['#[regex(%s, priority = 3)] A,' % rust_str(p)]), 'reject', 'empty', 'nullable with explicit priority')
+    add(enum(['#[logos(skip("[ \\t]*", priority = 3))]'], ['#[token("b")] B,']), 'reject', 'empty', 'nullable skip with explicit priority')
+    add(enum([], ['#[token("", priority = 2)] A,', '#[token("b")] B,']), 'reject', 'empty', 'empty token with explicit priority')
     add(enum([], ['#[token("")] A,']), 'reject', 'empty')
     for p in ['(?-u:\\b)a', '^a', '(?m:^)a', '(?-u:\\B)a', '\\ba', 'a|^b', '$', '(?-u:\\b)', 'a*$']:
         add(enum([], ['#[regex(%s)] A,' % rust_str(p)]), 'reject', None, 'look-behind at token start')
